@@ -1,17 +1,8 @@
 //! vcheck <Cxx> <quick|thorough|replay> [file]
 //! exit 0 = property held on everything explored, 1 = violation, 2 = inconclusive.
-mod canon;
-mod engine;
-mod exec;
-mod genr;
-mod sem;
-mod lit;
-mod props;
-mod run;
-mod tape;
-mod ty;
 
-use engine::{Session, Tier};
+use vharness::engine::{Session, Tier};
+use vharness::{props, run};
 use std::path::PathBuf;
 
 fn main() {
